@@ -59,6 +59,32 @@ def split_top(s, sep=","):
     return out
 
 
+def top_find(s, pat):
+    """index of the first occurrence of pat at bracket depth 0, or -1"""
+    depth = 0
+    i, n = 0, len(s)
+    instr = False
+    while i < n:
+        ch = s[i]
+        if instr:
+            if ch == "\\":
+                i += 2
+                continue
+            if ch == '"':
+                instr = False
+        elif ch == '"':
+            instr = True
+        elif ch in OPEN:
+            depth += 1
+        elif ch in CLOSE:
+            if not (ch == ">" and i > 0 and s[i - 1] in "-="):
+                depth -= 1
+        elif depth == 0 and s.startswith(pat, i):
+            return i
+        i += 1
+    return -1
+
+
 def match_close(s, i):
     """index of the bracket closing s[i]"""
     depth = 0
@@ -216,9 +242,10 @@ def parse_rvalue(r):
         r = r[9:]
     if r.startswith(("copy ", "move ", "const ")):
         # may be a cast:  OP as TY (Kind)
-        m = re.match(r"^(.*) as (.+) \((\w+(?:\(.*\))?)\)$", r, re.S)
+        k = top_find(r, " as ")
+        m = re.match(r"^(.+) \((\w+(?:\(.*\))?)\)$", r[k + 4:], re.S) if k > 0 else None
         if m and not r.startswith("const \""):
-            return ("cast", parse_operand(m.group(1)), m.group(2), m.group(3))
+            return ("cast", parse_operand(r[:k]), m.group(1), m.group(2))
         return ("use", parse_operand(r))
     m = re.match(r"^&(raw (?:const|mut) |mut |fake (?:shallow |deep )?)?(.+)$", r, re.S)
     if m and not r.startswith("&&"):
@@ -300,14 +327,14 @@ def parse_stmt(l):
     m = re.match(r"^assert\((!?)(.+?), \"(.*)\"(?:, .*)?\) -> \[success: bb(\d+).*\];$", l)
     if m:
         return ("assert", m.group(1) == "!", parse_operand(m.group(2)), m.group(3), int(m.group(4)))
-    # calls
-    m = re.match(r"^(?:(.+?) = )?([^=]+?)\((.*)\) -> (?:\[return: bb(\d+), unwind[^\]]*\]|unwind \w+(?:\(\w+\))?|bb(\d+));$", l, re.S)
+    # calls:  [DEST = ]CALLEE(ARGS) -> [return: bbN, unwind ..] | -> unwind continue | -> bbN
+    m = re.match(r"^(.*\)) -> (?:\[return: bb(\d+), unwind[^\]]*\]|unwind \w+(?:\(\w+\))?|bb(\d+));$", l, re.S)
     if m and not l.startswith(("discriminant(", "Deinit(")):
-        dest, callee, args, nxt, nxt2 = m.groups()
-        # make sure the callee/args split is at the *outermost* call parens
-        head = l[: l.rfind(") -> ")] + ")"
-        if dest is not None:
-            head = head[len(dest) + 3:]
+        head, nxt, nxt2 = m.groups()
+        dest = None
+        k = top_find(head, " = ")
+        if k >= 0 and "(" not in head[:k].replace("(*", "").replace("(_", "").replace("((", ""):
+            dest, head = head[:k], head[k + 3:]
         # head = CALLEE(ARGS) ; find the '(' matching the final ')'
         depth = 0
         pos = None
